@@ -1814,7 +1814,7 @@ class Interp:
             return TOP
         if is_int(a) and is_int(b):
             sa, sb = setof(a), setof(b)
-            if sa is not None and sb is not None and len(sa | sb) <= 8 and times < 2 and a[0] != 'l' and b[0] != 'l':
+            if sa is not None and sb is not None and len(sa | sb) <= 16 and a[0] in ('c', 's') and b[0] in ('c', 's'):
                 return S(sa | sb)
             ra, rb = rng(a, A.sym), rng(b, B.sym)
             if ra is None or rb is None or times >= 3:
